@@ -177,8 +177,26 @@ pub fn set_capped() {
     CAPPED.store(true, Ordering::Relaxed);
 }
 
+thread_local! { static LAST_PANIC_AT: std::cell::RefCell<String> = const { std::cell::RefCell::new(String::new()) }; }
+/// panics are not printed; the hook only remembers where the panic was raised (source location) so that a
+/// caught panic can be reported with its origin (clvm_rs source file or harness file)
 pub fn silence_panics() {
-    std::panic::set_hook(Box::new(|_| {}));
+    std::panic::set_hook(Box::new(|info| {
+        let loc = info.location().map(|l| format!("{}:{}", l.file(), l.line())).unwrap_or_default();
+        LAST_PANIC_AT.with(|c| *c.borrow_mut() = loc);
+    }));
+}
+/// run one case of a sequential section; a panic becomes a violation of that case and the section continues
+pub fn guarded<F: FnOnce(&mut Acc)>(acc: &mut Acc, canon: &str, f: F) {
+    let r = catch_unwind(AssertUnwindSafe(|| f(acc)));
+    if let Err(e) = r {
+        let m = format!("{} (raised at {})", panic_msg(e), last_panic_location());
+        acc.violation(format!("PANIC {canon}"), m);
+        acc.inc("panics");
+    }
+}
+pub fn last_panic_location() -> String {
+    LAST_PANIC_AT.with(|c| c.borrow().clone())
 }
 
 pub fn panic_msg(e: Box<dyn std::any::Any + Send>) -> String {
@@ -221,7 +239,7 @@ where
                     for i in start..end {
                         let r = catch_unwind(AssertUnwindSafe(|| f(i, &mut acc)));
                         if let Err(e) = r {
-                            let m = panic_msg(e);
+                            let m = format!("{} (raised at {})", panic_msg(e), last_panic_location());
                             acc.violation(format!("PANIC {}", describe(i)), m);
                             acc.inc("panics");
                         }
